@@ -287,6 +287,16 @@ NEUTRAL = [
          edits=[('        let mut buf = vec![0u8; len];\n        self.reader.read_exact(&mut buf)?;\n        Ok(buf)', '        const CHUNK: usize = 4096;\n        let mut buf = Vec::with_capacity(len.min(CHUNK));\n        let mut remaining = len;\n        while remaining > 0 {\n            let chunk = remaining.min(CHUNK);\n            buf.resize(buf.len() + chunk, 0);\n            let start = buf.len() - chunk;\n            self.reader.read_exact(&mut buf[start..])?;\n            remaining -= chunk;\n        }\n        Ok(buf)')]),
     dict(id="N29-read_raw_bytes-chunked-through-a-scratch-buffer", file="crates/serialize/src/postcard.rs",
          edits=[('        let mut buf = vec![0u8; len];\n        self.reader.read_exact(&mut buf)?;\n        Ok(buf)', '        const CHUNK: usize = 4096;\n        let mut tmp = [0u8; CHUNK];\n        let mut buf = Vec::with_capacity(len.min(CHUNK));\n        let mut remaining = len;\n        while remaining > 0 {\n            let chunk = remaining.min(CHUNK);\n            self.reader.read_exact(&mut tmp[..chunk])?;\n            buf.extend_from_slice(&tmp[..chunk]);\n            remaining -= chunk;\n        }\n        Ok(buf)')]),
+    dict(id="N30-bitvec-encode-fast-path-for-aligned-vectors", file="crates/serialize/src/encode.rs",
+         edits=[('        let mut aligned = self.clone();\n        aligned.force_align();\n        for item in aligned.as_raw_slice() {', """        if self.as_bitptr().raw_parts().1.into_inner() == 0 {
+            for item in self.as_raw_slice() {
+                item.encode(encoder, plugin, session)?;
+            }
+            return Ok(());
+        }
+        let mut aligned = self.clone();
+        aligned.force_align();
+        for item in aligned.as_raw_slice() {""")]),
 ]
 
 
